@@ -33,7 +33,8 @@ CLAIMED = {
             "The packs whose tables are hmap linked maps (EventPack, ParamPack, ExtensionPack, StatRemoteIpPack, StatUserAgentPack) are verified over the TRUSTED insertion-ordered dictionary model of lang/value (namespace hmapv), with the stated size preconditions (EventPack <= 251 own attributes, no reserved keys; StatRemoteIp/UserAgent within their eviction bound). "
             "SMDiskPerf/SMNetPerf/SMProcPerf/SMLogEvent list packs over an uninterpreted record equality justified by each record's own harness; TransactionRec for all record versions with nil tables; ProfilePack over TxRecord's C08 contracts. "
             "Stat*Pack record lists over container/list (trusted append-only list model): the real SetRecordsList then the real GetRecords return every record, any count 0..65535 (StatSqlPack, StatHttpcPack; the two transaction packs verify but are too slow to be claimed). "
-            "Not under contract: CounterPack1's round trip (its writer layout is C05's), ProcPerf's own record harness, SMBasePack (a seeded change there is not caught), the raw-tag-bytes branch of TagCountPack/TagLogPack/LogSinkPack.Write (C05 covers the writer side), StatGeneralPack.writeTable, Stat*Pack.SetRecords over hmap enumerations. Ten genuine deviations are known findings (ServerInfoPack, SMExtension, 16-bit hit counters, constant Count slots, EventPack count byte, unbounded 16-bit record count).",
+            "CounterPack1: the encode side of the plain configuration is a staged contract (fresh stream, both short arrays <= 255) and the readers of the absent optional sections are under contract; its decode harness is 2 of 274 obligations short (element-wise equality of the two short arrays) and is NOT claimed. "
+            "Not under contract: CounterPack1's full round trip, ProcPerf's own record harness, SMBasePack (a seeded change there is not caught), the raw-tag-bytes branch of TagCountPack/TagLogPack/LogSinkPack.Write (C05 covers the writer side), StatGeneralPack.writeTable, Stat*Pack.SetRecords over hmap enumerations. Ten genuine deviations are known findings (ServerInfoPack, SMExtension, 16-bit hit counters, constant Count slots, EventPack count byte, unbounded 16-bit record count).",
             TECH),
     "C04": ("proof",
             "No fabrication: every io Read* that returns normally consumed bytes that were present (postcondition of ReadBytes and of every reader built on it, byte-level contracts); "
